@@ -246,6 +246,10 @@ func (c cast) ent(i int) *keyEntry {
 // (set by the world executor for the duration of a run; nil elsewhere).
 var polBase func(label string) (policy.Policy, bool)
 
+// sharedOpts holds option values that several delegations of a run share (see DlgSpec.ShareOpt);
+// set by the world executor for the duration of a run, nil elsewhere.
+var sharedOpts map[string]delegation.Option
+
 func buildDelegation(c cast, s DlgSpec) (*delegation.Token, error) {
 	cmd, err := command.Parse(s.Cmd)
 	if err != nil {
@@ -273,7 +277,15 @@ func buildDelegation(c cast, s DlgSpec) (*delegation.Token, error) {
 	var opts []delegation.Option
 	if s.Exp != nil {
 		t := simTime(*s.Exp, s.SubMilli)
-		if s.Relative {
+		if s.ShareOpt != "" && sharedOpts != nil {
+			// one option value for every delegation of that name (the duration is the same by plan)
+			opt, ok := sharedOpts[s.ShareOpt]
+			if !ok {
+				opt = delegation.WithExpirationIn(time.Until(t))
+				sharedOpts[s.ShareOpt] = opt
+			}
+			opts = append(opts, opt)
+		} else if s.Relative {
 			opts = append(opts, delegation.WithExpirationIn(time.Until(t)))
 		} else {
 			opts = append(opts, delegation.WithExpiration(t))
